@@ -15,6 +15,7 @@ import itertools
 import os
 import socket
 import struct
+import tty
 
 from ..harness import exc_info
 from ..harness import run as arun
@@ -371,7 +372,7 @@ async def tcp_case(ctx, stream: bytes, chunk_sizes: list[int], writes: list[str]
     ctx.case(("tcp", stream, tuple(chunk_sizes[:20]), tuple(writes), fault), nontrivial=True, sample=case)
 
 
-async def reconnect_case(ctx, first_end: str, stream: bytes, writes: list[str]) -> None:
+async def reconnect_case(ctx, first_end: str, stream: bytes, writes: list[str], disconnect_between: bool = True) -> None:
     """One transport object, two sessions: the first ends with `first_end` (clean EOF, peer reset, nothing), then
     disconnect, connect again - the second session must deliver the second stream's lines and carry the writes."""
     from aiomysensors.transport.tcp import TCPTransport
@@ -379,10 +380,13 @@ async def reconnect_case(ctx, first_end: str, stream: bytes, writes: list[str]) 
     received = bytearray()
     sessions = {"n": 0}
     second_done = asyncio.Event()
-    case = {"engine": "tcp-reconnect", "first_end": first_end, "stream": stream.hex(), "writes": writes}
+    case = {"engine": "tcp-reconnect", "first_end": first_end, "stream": stream.hex(), "writes": writes,
+            "disconnect_between": disconnect_between}
+    peer_writers: list = []
 
     async def handler(reader, writer) -> None:
         sessions["n"] += 1
+        peer_writers.append(writer)
         try:
             if sessions["n"] == 1:
                 writer.write(b"first;session\n" + (b"4;1;1;0;2" if first_end == "eof-midline" else b""))
@@ -416,7 +420,7 @@ async def reconnect_case(ctx, first_end: str, stream: bytes, writes: list[str]) 
         await transport.connect()
         for _ in range(3):
             try:
-                await asyncio.wait_for(transport.read(), 5)
+                await asyncio.wait_for(transport.read(), 0.5 if first_end == "open" else 5)
             except Exception as exc:  # noqa: BLE001
                 if not is_transport_error(exc) and not isinstance(exc, asyncio.TimeoutError):
                     ctx.violation("io-error-not-transport-error", f"first session read raised {type(exc).__name__}", case)
@@ -428,11 +432,15 @@ async def reconnect_case(ctx, first_end: str, stream: bytes, writes: list[str]) 
                     await asyncio.sleep(0.003)
                 except Exception:  # noqa: BLE001
                     break
-        ctx.clause("disconnect-absorbs-os-errors")
-        try:
-            await asyncio.wait_for(transport.disconnect(), 10)
-        except Exception as exc:  # noqa: BLE001
-            ctx.violation("disconnect-raises", f"disconnect after {first_end} raised {type(exc).__name__}: {exc!s:.80}", case)
+        if disconnect_between:
+            ctx.clause("disconnect-absorbs-os-errors")
+            try:
+                await asyncio.wait_for(transport.disconnect(), 10)
+            except Exception as exc:  # noqa: BLE001
+                ctx.violation("disconnect-raises", f"disconnect after {first_end} raised {type(exc).__name__}: {exc!s:.80}", case)
+        else:
+            # a reconnect loop that reacts to the transport error by calling connect() again right away
+            ctx.clause("connect-again-without-disconnect")
         ctx.clause("reconnect")
         try:
             await asyncio.wait_for(transport.connect(), 10)
@@ -473,9 +481,11 @@ async def reconnect_case(ctx, first_end: str, stream: bytes, writes: list[str]) 
         if bytes(received) != "".join(writes).encode():
             ctx.violation("written-bytes-differ", f"second session: peer received {bytes(received)!r:.80}", case)
     finally:
+        for peer_writer in peer_writers:
+            peer_writer.close()
         server.close()
         await server.wait_closed()
-    ctx.case(("reconnect", first_end, stream, tuple(writes)), nontrivial=True, sample=case)
+    ctx.case(("reconnect", first_end, stream, tuple(writes), disconnect_between), nontrivial=True, sample=case)
 
 
 async def backpressure_case(ctx, n_writers: int, line_size: int, seed: int, transport=None, port: int = 0, loops: int = 1,
@@ -568,6 +578,100 @@ async def backpressure_case(ctx, n_writers: int, line_size: int, seed: int, tran
                            f"{want_lines[first][:30] if first < len(want_lines) else None!r}... ({len(got_lines)} vs {len(want_lines)} lines)",
                       case)
     return transport, port
+
+
+def quiet_connection_case(ctx, quiet_s: int, pending_read: bool, kind: str) -> None:
+    """A connection on which nothing happens for a long time (virtual clock, real loopback socket / pty): the peer must
+    receive exactly the lines the application writes - none that no write() call produced (keep-alives, probes,
+    re-sent lines) - and reads must deliver exactly the peer's lines, before, during and after the quiet stretch."""
+    from ..vloop import LogicalDeadlock, run_virtual
+
+    case = {"engine": "quiet-" + kind, "quiet_s": quiet_s, "pending_read": pending_read}
+    received = bytearray()
+    state: dict = {"problems": []}
+
+    async def scenario() -> None:
+        peer_writer = None
+        got_client = asyncio.Event()
+
+        async def handler(reader, writer) -> None:
+            nonlocal peer_writer
+            peer_writer = writer
+            got_client.set()
+            try:
+                while True:
+                    data = await reader.read(65536)
+                    if not data:
+                        break
+                    received.extend(data)
+            except OSError:
+                pass
+            finally:
+                writer.close()
+
+        if kind == "tcp":
+            from aiomysensors.transport.tcp import TCPTransport
+
+            server = await asyncio.start_server(handler, "127.0.0.1", 0)
+            transport = TCPTransport("127.0.0.1", server.sockets[0].getsockname()[1])
+        else:
+            from aiomysensors.transport.serial import SerialTransport
+
+            master, slave = os.openpty()
+            tty.setraw(master)
+            os.set_blocking(master, False)
+            transport = SerialTransport(os.ttyname(slave))
+            asyncio.get_running_loop().add_reader(master, lambda: received.extend(os.read(master, 65536)))
+        try:
+            await transport.connect()
+            if kind == "tcp":
+                await got_client.wait()
+            send_to_app = (lambda data: peer_writer.write(data)) if kind == "tcp" else (lambda data: os.write(master, data))
+            await transport.write("1;255;3;0;2;before\n")
+            send_to_app(b"0;255;3;0;14;up\n")
+            first = await transport.read()
+            reader_task = asyncio.ensure_future(transport.read()) if pending_read else None
+            for _ in range(40):
+                await asyncio.sleep(quiet_s / 40)
+            quiet_bytes = bytes(received)
+            send_to_app(b"1;0;1;0;0;after quiet\n")
+            second = await (reader_task if reader_task is not None else transport.read())
+            await transport.write("1;0;1;0;2;after\n")
+            await asyncio.sleep(5)
+            state.update(first=first, second=second, quiet_bytes=quiet_bytes)
+            await transport.disconnect()
+            await asyncio.sleep(SAFETY_QUIET)
+        finally:
+            if kind == "tcp":
+                server.close()
+                await server.wait_closed()
+            else:
+                asyncio.get_running_loop().remove_reader(master)
+                os.close(master)
+                os.close(slave)
+
+    result, loop = run_virtual(scenario, grace=0.01)
+    if isinstance(result, LogicalDeadlock):
+        ctx.obs("quiet-case-deadlock")
+        ctx.inconclusive.append(f"quiet-connection case {case}: loop reported a logical deadlock (loopback delivery too slow?)")
+        return
+    if isinstance(result, BaseException):
+        ctx.violation("quiet-connection-raised", f"{type(result).__name__}: {result!s:.100}", case)
+        return
+    ctx.case(("quiet", kind, quiet_s, pending_read), sample=case)
+    ctx.clause("quiet-connection")
+    ctx.obs("quiet-virtual-seconds", quiet_s)
+    want_quiet = b"1;255;3;0;2;before\n"
+    want_all = want_quiet + b"1;0;1;0;2;after\n"
+    if state["quiet_bytes"] != want_quiet or bytes(received) != want_all:
+        ctx.violation("unwritten-bytes-at-peer", f"{kind} connection quiet for {quiet_s} virtual seconds: the peer received "
+                                                 f"{bytes(received)!r:.120}, the application wrote {want_all!r}", case)
+    if (state["first"], state["second"]) != ("0;255;3;0;14;up\n", "1;0;1;0;0;after quiet\n"):
+        ctx.violation("read-not-a-line-of-the-stream", f"reads around a quiet stretch returned {state['first']!r}, "
+                                                       f"{state['second']!r}", case)
+
+
+SAFETY_QUIET = 120
 
 
 def two_loop_backpressure(ctx, n_writers: int, line_size: int, seed: int, loops: int = 2) -> None:
@@ -772,9 +876,12 @@ def run_case(ctx, case: dict) -> None:
         else:
             arun(backpressure_case(ctx, case["writers"], case["line_size"], case["seed"]))
     elif case.get("engine") == "tcp-reconnect":
-        arun(reconnect_case(ctx, case["first_end"], bytes.fromhex(case["stream"]), case["writes"]))
+        arun(reconnect_case(ctx, case["first_end"], bytes.fromhex(case["stream"]), case["writes"],
+                            case.get("disconnect_between", True)))
     elif case.get("engine") == "serial-pty" and not str(case["stream"]).startswith("<"):
         arun(serial_case(ctx, bytes.fromhex(case["stream"]), case["chunks"], case["writes"]))
+    elif str(case.get("engine", "")).startswith("quiet-"):
+        quiet_connection_case(ctx, case["quiet_s"], case["pending_read"], case["engine"].split("-", 1)[1])
     else:
         arun(misuse_cases(ctx))
 
@@ -828,11 +935,17 @@ def run(ctx) -> None:
             for i, first_end in enumerate(("eof", "reset", "open", "eof-midline", "reset", "eof-midline")):
                 if ctx.mine(i):
                     arun(reconnect_case(ctx, first_end, b"4;1;1;0;2;1\nsecond;2\n", ["w1\n", "w2 \xe5\n"]))
+                    arun(reconnect_case(ctx, first_end, b"4;1;1;0;2;1\nsecond;2\n", ["w1\n", "w2 \xe5\n"],
+                                        disconnect_between=False))
             for i in range(ctx.pick(12, 300) // ctx.shard_count + 1):
                 arun(backpressure_case(ctx, rng.choice([2, 3, 5, 8]), rng.choice([2000, 20000, 70000]),
                                        ctx.seed * 100000 + ctx.shard_index * 1000 + i))
+            for i, (quiet_s, pending) in enumerate([(35, False), (35, True), (65, False), (320, True), (3700, False),
+                                                    (90000, True)]):
+                if ctx.mine(i):
+                    quiet_connection_case(ctx, quiet_s, pending, "tcp")
             for i in range(ctx.pick(3, 40) // ctx.shard_count + 1):
-                two_loop_backpressure(ctx, rng.choice([3, 5, 8]), rng.choice([20000, 70000, 400000]),
+                two_loop_backpressure(ctx, rng.choice([3, 5, 8]), rng.choice([2000, 20000, 70000]),
                                       ctx.seed * 100000 + ctx.shard_index * 1000 + 500 + i, loops=rng.choice([2, 2, 3]))
         # pty
         try:
